@@ -82,6 +82,8 @@ func (t *STypeExpr) String() string {
 		return "set[" + t.Elem.String() + "]"
 	case "array":
 		return "array[" + t.Key.String() + "]" + t.Elem.String()
+	case "goarray":
+		return "[" + t.Name + "]" + t.Elem.String()
 	}
 	return "?"
 }
@@ -367,6 +369,11 @@ func (p *sparser) parseType() *STypeExpr {
 	}
 	if p.isOp("[") {
 		p.next()
+		if p.peek().kind == "int" {
+			n := p.next().text
+			p.expectOp("]")
+			return &STypeExpr{Kind: "goarray", Name: n, Elem: p.parseType()}
+		}
 		p.expectOp("]")
 		return &STypeExpr{Kind: "slice", Elem: p.parseType()}
 	}
@@ -560,6 +567,7 @@ type Contract struct {
 	Ensures    []*Clause
 	Modifies   []string
 	Reads      []string
+	Writes     []string // slice parameters whose elements the callee may overwrite (out-parameters)
 	HasMod     bool
 	Pure       bool
 	Loops      map[int]*LoopSpec
@@ -611,11 +619,12 @@ type ContractFile struct {
 	Axioms    []*Axiom
 	Lemmas    []*Lemma
 	Consts    map[string]string
+	Immutable []string
 }
 
-var blockKeywords = map[string]bool{"functype": true, "func": true, "extern": true, "ghost": true, "axiom": true, "lemma": true, "group": true, "const": true}
+var blockKeywords = map[string]bool{"immutable": true, "functype": true, "func": true, "extern": true, "ghost": true, "axiom": true, "lemma": true, "group": true, "const": true}
 var clauseKeywords = map[string]bool{
-	"requires": true, "ensures": true, "modifies": true, "reads": true, "loop": true, "at": true, "panics_when": true,
+	"requires": true, "ensures": true, "modifies": true, "reads": true, "writes": true, "loop": true, "at": true, "panics_when": true,
 	"prop": true, "pure": true, "uses": true, "abstract": true, "counts": true, "trusted": true, "may_panic": true,
 	"induct": true, "trigger": true, "inline": true, "opaque": true, "nosafe": true,
 }
@@ -689,6 +698,12 @@ func readContractFile(path, pkgPath string) (*ContractFile, error) {
 			return &Clause{Kind: kind, Label: label, Text: text, Expr: e, Line: rl.line}, nil
 		}
 		switch kw {
+		case "immutable":
+			for _, m := range strings.Split(rest, ",") {
+				if m = strings.TrimSpace(m); m != "" {
+					cf.Immutable = append(cf.Immutable, m)
+				}
+			}
 		case "group":
 			curGroup = rest
 		case "const":
@@ -795,6 +810,12 @@ func readContractFile(path, pkgPath string) (*ContractFile, error) {
 				m = strings.TrimSpace(m)
 				if m != "" && m != "nothing" {
 					cur.Modifies = append(cur.Modifies, m)
+				}
+			}
+		case "writes":
+			for _, m := range strings.Split(rest, ",") {
+				if m = strings.TrimSpace(m); m != "" {
+					cur.Writes = append(cur.Writes, m)
 				}
 			}
 		case "reads":
